@@ -27,6 +27,8 @@ def run_models(ctx):
         ctx.model_check("MC_C09Algebra", "MC_alg_gens4.cfg", name="generators-L4", timeout=1200)
     # 3. the models can fail: deliberate deviations must be caught by the named invariant
     tests = [("MC_C09Compress", "MC_cmp_mut_capskiplast.cfg", "BondCap", "cap ignored on the last bond of the sweep"),
+             ("MC_C09Compress", "MC_cmp_mut_normafterreverse.cfg", "NormalizedAtCentre",
+              "shared finaliser normalises ts[0] after the cosmetic reversal: an isometry at the far end of the sweep"),
              ("MC_C09Algebra", "MC_alg_mut_expec.cfg", "QueryExact", "bra contracted with the operator's lower indices")]
     if not quick:
         tests += [("MC_C09Compress", "MC_cmp_mut_zipupnocanon.cfg", "ValueKept",
@@ -59,7 +61,7 @@ def compress_cases(ctx):
     res = T.run_tlc("MC_C09Compress", "MC_cmp_emit_quick.cfg" if ctx.tier == "quick" else "MC_cmp_emit.cfg", ctx.spec_dir, workers=1, coverage=False, scratch=ctx.scratch, timeout=600)
     cases = [c for c in T.parse_printed_json(res.output) if isinstance(c, dict) and "method" in c]
     # canonical order (TLC's enumeration order is not part of the contract)
-    cases.sort(key=lambda c: (c["L"], c["kind"], c["r"], c["method"], c["cap"], c["rev"]))
+    cases.sort(key=lambda c: (c["L"], c["kind"], c["r"], c["method"], c["cap"], c["rev"], c.get("normalize", False)))
     if len(cases) < 1000:
         raise MachineryError("the sweep model printed only %d cases" % len(cases))
     return cases
